@@ -329,7 +329,12 @@ def truncate_basename(basename, iso_level, is_dir):
      specified.
     """
     if iso_level == 4:
-        # ISO level 4 allows "anything", so just return the original.
+        # ISO level 4 allows "anything", so just return the original.  The one
+        # exception are the identifiers consisting of the single byte 0x00 or
+        # 0x01, which are reserved for the 'dot' and 'dotdot' records
+        # (Ecma-119 7.6.2); they become an underscore like at the other levels.
+        if basename in ('\x00', '\x01'):
+            return '_'
         return basename
 
     if iso_level == 1:
@@ -389,8 +394,13 @@ def mangle_file_for_iso9660(orig, iso_level):
     if iso_level == 4:
         # A level 4 ISO allows 'anything', so just return the original.  The
         # one exception is the semicolon: at all levels it separates the name
-        # from the version, so it cannot be a part of the name.
+        # from the version, so it cannot be a part of the name.  The other
+        # one are the identifiers consisting of the single byte 0x00 or 0x01,
+        # which are reserved for the 'dot' and 'dotdot' records (Ecma-119
+        # 7.6.2); they become an underscore like at the other levels.
         orig = orig.replace(';', '_')
+        if orig in ('\x00', '\x01'):
+            orig = '_'
     splitter = orig.split('.')
     if iso_level == 4:
         # Without an extension there is nothing to split off.  That is also
